@@ -86,6 +86,9 @@ int main(int argc, char** argv) {
 		// entries that are out of range but equal a valid index modulo 2^32 (or 2^16): the argument is a vector of size_t
 		for (int sh : {32, 40, 63, 16}) { std::vector<size_t> b(perm.begin(), perm.end()); b[rng.below(n)] += (size_t)1 << sh; bads.push_back(b); }
 		bads.push_back({});
+		// malformed arguments in ascending order (a shortcut for "already in order" must not let them through)
+		{ std::vector<size_t> b(n); std::iota(b.begin(), b.end(), 0); b[n - 1] = n; bads.push_back(b); b[n - 1] = n + 3; bads.push_back(b); b[n - 1] = (size_t)-1; bads.push_back(b);
+		  if (n > 1) { std::iota(b.begin(), b.end(), 0); b[n - 1] = b[n - 2]; bads.push_back(b); std::iota(b.begin(), b.end(), 0); b[1] = 0; bads.push_back(b); std::iota(b.begin(), b.end(), 1); bads.push_back(b); } }
 		size_t idx = 0;
 		for (auto& p : perms) {
 			TableSpec s = shape(n, rng, true);
@@ -111,10 +114,16 @@ int main(int argc, char** argv) {
 		for (auto& p : bads) {
 			TableSpec s = shape(n, rng, true);
 			Table t; PVA::build(t, s, PAD_ZERO);
-			std::string pre = proj(t); bool ok = true;
-			try { t.permuteDimensions(p); } catch (std::exception&) { ok = false; }
 			std::vector<long> pl; for (size_t v : p) pl.push_back(v > 1000 ? 99 : (long)v);
-			JW w; w.s("op", "permute").ia("perm", pl).b("ok", ok).raw("pre", pre).raw("post", proj(t)).b("c_api", false); w.emit(out); ncalls++;
+			// through the C++ method, and (arguments of the right length only: the C function takes a bare pointer) the C wrapper
+			for (int viaC = 0; viaC < (p.size() == (size_t)n ? 2 : 1); viaC++) {
+				std::string pre = proj(t); bool ok = true;
+				try {
+					if (viaC) { ::splinetable ct; ct.data = &t; std::vector<size_t> q = p; ok = splinetable_permute(&ct, q.data()) == 0; }
+					else t.permuteDimensions(p);
+				} catch (std::exception&) { ok = false; }
+				JW w; w.s("op", "permute").ia("perm", pl).b("ok", ok).raw("pre", pre).raw("post", proj(t)).b("c_api", (bool)viaC); w.emit(out); ncalls++;
+			}
 		}
 	}
 	fclose(out);
